@@ -56,6 +56,8 @@ func genFieldID(t *rapid.T, used map[int16]bool, cfg GenCfg) int16 {
 		var id int16
 		c := rapid.IntRange(0, 9).Draw(t, "idClass")
 		switch {
+		case c < 3 && i <= 10:
+			id = int16(rapid.IntRange(1, 8+i*4).Draw(t, "id"))
 		case c < 6 || i > 10:
 			id = int16(rapid.IntRange(1, 24+i*4).Draw(t, "id"))
 		case c < 8:
@@ -63,6 +65,9 @@ func genFieldID(t *rapid.T, used map[int16]bool, cfg GenCfg) int16 {
 			if !cfg.BigIDs && id > 300 {
 				id = 300
 			}
+		case c == 8:
+			// a small id shifted by a multiple of 32 / 64: the same bit of another word (or half word) of a requires bitmap
+			id = int16(rapid.IntRange(1, 8).Draw(t, "idLow") + 32*rapid.IntRange(1, 4).Draw(t, "idWord"))
 		default:
 			hi := 300
 			if cfg.BigIDs {
